@@ -6,12 +6,13 @@ from props.m1common import rng_for, is_err
 import sx
 
 PID = "C20"
+KERNELS = ['K_scale']   # translated from /repo on every run, tied to the model by coq/Gen/<name>_eq.v
 RUNNER = "impl_m6.py"
 N = {"quick": 3000, "thorough": 100000}
 LEVEL_RULE = ("one helper per case: scale (old/new ranges incl. reversed new ranges, |curve shape| <= 20, three ordered values incl. "
               "both bounds), scale_sequence_to_sum (fractions, zero sums, negative entries), find_closest_index/item (unsorted data "
               "with ties and duplicates, key variant), nested get/set/delete (depth <= 4, bad paths), cyclic_permutations, "
-              "accumulate_from_n, uniqify_sequence, find_numbers_which_sums_up_to (default and explicit arguments), attribute / "
+              "accumulate_from_n, uniqify_sequence, find_numbers_which_sums_up_to (default and explicit arguments; candidates sorted and unsorted, zero and negative ones), attribute / "
               "dictionary extraction, compute_lazy (call histories <= 15 with repeats on one temp file, forced and unforced, call "
               "counter). non-trivial = ties/duplicates present, a repeat after a change in a history, nesting depth >= 3, curve shape != 0")
 ASSUMPTIONS = ["integers / fractions as data (exact arithmetic on both sides); scale is compared in binary64 within 1e-9 relative",
@@ -86,6 +87,10 @@ def gen(seed, index):
         if rng.random() < 0.4:
             return ["sums", rng.randint(1, 6)]
         nums = sorted(set(rng.randint(1, 6) for _ in range(rng.randint(1, 4))))
+        if rng.random() < 0.5:
+            # candidates in any order, also zero / negative ones (the documented argument is an arbitrary sequence)
+            nums = list(set(rng.randint(-2, 7) for _ in range(rng.randint(1, 4))))
+            rng.shuffle(nums)
         cnts = sorted(set(rng.randint(1, 4) for _ in range(rng.randint(1, 3))))
         return ["sums", rng.randint(2, 10), nums, cnts]
     if k == "attr":
@@ -227,8 +232,8 @@ def oracle(case, io, mo):
         t = int(case[1])
         nums = [int(x) for x in case[2]] if len(case) > 2 else list(range(1, t + 1))
         cnts = [int(x) for x in case[3]] if len(case) > 2 else list(range(1, t + 1))
-        exp = sorted(c for n in set(cnts) for c in itertools.combinations_with_replacement(nums, n) if sum(c) == t)
-        got = sorted(tuple(int(y) for y in x) for x in io[1:])
+        exp = sorted(tuple(sorted(c)) for n in set(cnts) for c in itertools.combinations_with_replacement(nums, n) if sum(c) == t)
+        got = sorted(tuple(sorted(int(y) for y in x)) for x in io[1:])
         return None if got == exp else f"not exactly the multisets of the allowed sizes with the given sum: {got} vs {exp}"
     if k == "attr":
         d = {int(a): int(b) for a, b in case[1]}
